@@ -73,3 +73,6 @@ m $A 'none.get_pu_num_default' 1 'return \(num_pu \+ offset\) % hardware_concurr
 m $A 'none.get_pu_num_default' 1 'std::size_t num_pu = pu_offset_ \+ pu_step_ \* num_thread;' 'std::size_t num_pu = pu_offset_ + pu_step_ + num_thread;'
 m $A 'none.get_pu_num_default' 1 'std::size_t offset = \(num_pu / hardware_concurrency\) % pu_step_;' 'std::size_t offset = (num_pu / hardware_concurrency) + pu_step_;'
 m $A 'none.get_pu_num_default' 0 'std::size_t offset = \(num_pu / hardware_concurrency\) % pu_step_;' 'std::size_t const offset = (num_pu / hardware_concurrency) % pu_step_;'
+m $F 'numa_balanced.workers' 1 'if \(\+\+num_thread_socket == num_threads_socket\[n\]\) break;' '++num_thread_socket;'
+m $F 'numa_balanced.workers' 1 'for \(std::size_t num_pu = 0; num_pu < num_pus_cores\[num_core\]; \+\+num_pu\)(\s+\{\s+if \(threads::detail::any\(affinities\[num_thread\]\)\)\s+\{\s+PIKA_THROWS_IF\(ec, pika::error::bad_parameter,\s+"decode_numa)' 'for (std::size_t num_pu = 0; num_pu <= num_pus_cores[num_core]; ++num_pu)\1'
+m $F 'numa_balanced.workers' 0 'std::size_t core_offset = 0;\s+std::size_t pus_t = 0;' 'std::size_t pus_t = 0; std::size_t core_offset = 0;'
